@@ -185,6 +185,48 @@ void adapter_exec(Ev *ev)
         if (pl) { if (npl) xfree(pl); else xfree0(pl); }
         return;
     }
+    /* persistent session: rxopen tr mem16 cap nw <stream>;  then  rxn <same arguments as rx> for each framed unit:
+     * the unit named in the event is what the cycle is expected to consume; the first observation is the number of
+     * octets the cycle actually took from the stream */
+    static RegP sp; static Arr sarr; static unsigned char *sstream = NULL; static size_t sstream_n = 0;
+    if (ev_is(ev, "rxopen")) {
+        reset_ledger(); memset(&B, 0, sizeof B);
+        if (sstream) { xfree(sstream); sstream = NULL; }
+        sstream_n = (size_t)ev->a[3];
+        sstream = xblock(sstream_n ? sstream_n : 1);
+        for (size_t i = 0; i < sstream_n; i++) sstream[i] = (unsigned char)ev->a[4 + i];
+        sarr.p = sstream; sarr.n = sstream_n; sarr.pos = 0;
+        setup(&sp, (int)ev->a[0], (int)ev->a[1], (size_t)ev->a[2] + sizeof(RPFrame), &sarr);
+        obs(ev, 0);
+        return;
+    }
+    if (ev_is(ev, "rxn")) {
+        int mem16 = (int)ev->a[2];
+        memset(&B, 0, sizeof B);
+        L.allocs = L.frees = L.badfree = 0;
+        L.failnext = (int)ev->a[4];
+        B.verdict = ev->a[5]; B.vaddr = get_w32(ev->a + 6);
+        B.nd = (int)ev->a[8]; B.data = ev->a + 9;
+        B.ws = mem16 ? 2 : 1;
+        outn = 0;
+        size_t before = sarr.pos;
+        RPMaybeFrame mf; memset(&mf, 0, sizeof mf);
+        int rc = regp_recv(&sp, &mf);
+        long long errid = mf.error.id;
+        if (rc >= 0) (void)regp_process(&sp, &mf);
+        regp_free(&sp, rc >= 0 ? mf.frame : NULL);
+        obs(ev, (long long)(sarr.pos - before));
+        obs(ev, rc < 0 ? -1 : 0); obs(ev, rc < 0 ? 0 : errid);
+        obs(ev, L.allocs); obs(ev, L.frees); obs(ev, L.badfree); obs(ev, l_live());
+        obs(ev, B.ncalls);
+        for (int i = 0; i < B.ncalls && i < 4; i++) {
+            obs(ev, B.c[i].kind); put_w32(ev, B.c[i].addr); obs(ev, (long long)B.c[i].n);
+            for (size_t k = 0; k < B.c[i].npl; k++) obs(ev, B.c[i].pl[k]);
+        }
+        obs(ev, -7);
+        for (size_t i = 0; i < outn; i++) obs(ev, out[i]);
+        return;
+    }
     if (ev_is(ev, "rx")) {
         int tr = (int)ev->a[1], mem16 = (int)ev->a[2];
         size_t cap = (size_t)ev->a[3];
